@@ -412,13 +412,18 @@ class RestCtx(FsmCtx):
         for e in w.log[pos:]:
             if e[2] == "fire" and e[3] == "thread":
                 self.resolve_deferred(pos)
-            elif e[2] in ("lose", "closed"):
+            elif e[2] == "closed":
+                # the connection is GONE before the deferred write ran: the message is lost in flight. (A close the
+                # agent has only asked for does not excuse it: what is written until the close completes is still
+                # sent, Appendix B, and the request was answered 'status: true'.)
                 for ex in self.pending:
                     if ex["cid"] == e[3]:
                         ex["conn_ended"] = True
         if op[0] != "rest":
             return
         method, path, cred = op[1], op[2], op[3]
+        if not path.startswith("/v1/peer/"):
+            return          # (the liveness poll GET /v1/ of the shared generator: outside the URL map the property names)
         if "@" in cred:
             self.stats["rest_with_accept_header"] += 1
             cred = cred.split("@", 1)[0]
@@ -568,6 +573,10 @@ class RestCtx(FsmCtx):
             raise Violation("C16", "send", "%s/not-exactly-one-update" % what,
                             "%s reported success; the wire shows %s" % (what, rp.describe(grown)))
         body = ex["body"]
+        if not isinstance(body, dict):
+            raise Violation("C16", "send", "%s/non-object-request-put-a-message-on-the-wire" % what,
+                            "%s with the body %r (not a JSON object: it requests nothing) reported success and wrote %s"
+                            % (what, body, rp.describe(grown)))
         attr = dict(body.get("attr") or {})
         nlri = body.get("nlri") or []
         withdraw = body.get("withdraw") or []
